@@ -34,7 +34,8 @@ LEVEL_TEXT = ("Every generated history is executed against the real send_message
               " Also through the real stdio transport: 0-1000 non-matching messages of mixed kinds ahead of the matching response, in 1 or 3 writes."
               ' Also calls with the optional arguments (progress callback, never-triggered token), boundary deadlines (0, 10 ms, 1e6 s) and failing streams.'
               ' Also one-member and empty batches, falsy payloads ({} [] 0 false "").'
-              ' Every case also runs under the dependency-free validation backend.')
+              ' Every case also runs under the dependency-free validation backend.'
+              ' Also params in which the caller chose its own progress token (no callback) or put other members into _meta.')
 LEVEL_NOTE = ("Trusted: the virtual-time loop (asyncio SelectorEventLoop subclass), anyio memory streams, "
               "the oracle in vf/props/c01.py. Schedules not generated are not covered.")
 ASSUMPTIONS = [
